@@ -125,6 +125,15 @@ def run(chk, prog):
         accg = {(g["id"] if isinstance(g, dict) and "id" in g else A.show(g) if isinstance(g, dict) else str(g), pol) for g, pol in acc.guards}
         zg = [g for g, pol in z.guards if isinstance(g, dict) and g.get("k") not in ("SwitchCase", "Catch") and
               ((g["id"] if "id" in g else A.show(g)), pol) not in accg]
+        # ... but then the result must be stored under that condition too: a reset that is skipped for an empty bucket while the store is not
+        # hands on the value of the previous bunch
+        gkey = lambda g, pol: ((g["id"] if isinstance(g, dict) and "id" in g else A.show(g) if isinstance(g, dict) else str(g)), pol)
+        zkeys = {gkey(g, pol) for g, pol in z.guards if isinstance(g, dict) and g.get("k") not in ("SwitchCase", "Catch")}
+        res_stores = [a_ for a_ in s.accesses if a_.kind == "store" and a_.base == target[0] and a_.idx is not None and a_.idx[1] == target[1] and str(a_.value) == var]
+        for a_ in res_stores:
+            skeys = {gkey(g, pol) for g, pol in a_.guards if isinstance(g, dict)}
+            if not zkeys <= skeys:
+                zg = zg + [g for g, pol in z.guards if isinstance(g, dict) and gkey(g, pol) in (zkeys - skeys)]
         chk.check(len(acc.loops) == 2 and zl == [id(acc.loops[0])] and not zg, "R2", A.loc(fn, {"line": z.line}),
                   "%s: the accumulator is reset for every bunch (reset inside the bunch loop, outside the sum)" % nm, "%s:reset-per-bunch" % nm)
         iL = acc.loops[-1]
